@@ -189,8 +189,10 @@ CHECKS["C17"] = {
             "success the named file holds exactly the concatenated chunks, the temp file is gone and nothing else changes; on "
             "any fault the call fails, the named file keeps its previous content or stays absent and only the temp file is "
             "touched; names that are not file: URLs and carry no network location are used verbatim whatever URL syntax they "
-            "contain; network locations write nothing. Tie: the model's destination path vs the file actually written for "
-            "every name; faults injected from outside (k-th write call, the move) with and without a pre-existing file "
+            "contain; network locations write nothing; the same protocol over a file system with symbolic links (a link at the "
+            "destination is replaced by the file, what it led to keeps its content: C17_links_exact / _target_kept / _atomic). "
+            "Tie: the model's destination path vs the file actually written for "
+            "every name; the tree left for destinations that are symbolic links vs the model's; faults injected from outside (k-th write call, the move) with and without a pre-existing file "
             "(partial: atomicity of os.rename is assumed).",
     "design_ref": "DESIGN.md §5 C17, §10",
     "technique": "Coq proof over a file-system step model + fault injection with unittest.mock on the implementation",
